@@ -50,6 +50,27 @@ func c13PointConds() []c13Cond {
 				fmt.Sprintf("%s%s%v%s[node=%q type=%q key=%q]", m.vt, m.op, m.v, m.txt, f.node, f.typ, f.key)})
 		}
 	}
+	// fields left over from another value type (the UI keeps the operator / text / number points when the
+	// value type of a condition is switched): they must not take part in the comparison
+	var stale []cmp
+	for _, op := range []string{data.PointValueGreaterThan, data.PointValueLessThan, data.PointValueEqual, data.PointValueNotEqual, data.PointValueContains} {
+		stale = append(stale, cmp{data.PointValueOnOff, op, 1, "ab"}, cmp{data.PointValueOnOff, op, 0, ""})
+	}
+	for _, m := range cmps {
+		switch m.vt {
+		case data.PointValueNumber:
+			stale = append(stale, cmp{m.vt, m.op, m.v, "ab"})
+		case data.PointValueText:
+			stale = append(stale, cmp{m.vt, m.op, 5, m.txt})
+		}
+	}
+	for _, f := range []ft{filters[0], filters[5]} {
+		for _, m := range stale {
+			out = append(out, c13Cond{client.Condition{ConditionType: data.PointValuePointValue, NodeID: f.node, PointType: f.typ, PointKey: f.key,
+				ValueType: m.vt, Operator: m.op, Value: m.v, ValueText: m.txt},
+				fmt.Sprintf("%s%s%v%s(leftover fields)[node=%q type=%q key=%q]", m.vt, m.op, m.v, m.txt, f.node, f.typ, f.key)})
+		}
+	}
 	return out
 }
 
@@ -625,7 +646,7 @@ func TestC13(t *testing.T) {
 			nb, steps = 3, 6
 		}
 		r.Explore(mc.Config{Name: fmt.Sprintf("point-conditions-b%d", nb), Serial: true, SplitDepth: 2,
-			Rule: fmt.Sprintf("rule configurations: each of 72 single point conditions (number > < = !=, on/off, text = != contains; filters by node/type/key) and all ordered pairs over a reduced set, with two set-value actions (number+text, on/off) and two inactive actions (number, text) x all sequences of %d single-point batches over a 66-point alphabet (two of them carrying the rule's own id as origin; 2 nodes x 2 types x 2 keys x values {4,5,6,0,1} / texts {ab,xaby,a}); after every batch everything the rule published is compared with a reference interpreter (condition active points, rule active point, action set-value with the rule as origin, action/inactive-action active points, nothing when nothing changes)", nb)},
+			Rule: fmt.Sprintf("rule configurations: each of 106 single point conditions (number > < = !=, on/off, text = != contains; 34 of them with fields left over from another value type: on/off with every operator, number with a text, text with a number; filters by node/type/key) and all ordered pairs over a reduced set, with two set-value actions (number+text, on/off) and two inactive actions (number, text) x all sequences of %d single-point batches over a 66-point alphabet (two of them carrying the rule's own id as origin; 2 nodes x 2 types x 2 keys x values {4,5,6,0,1} / texts {ab,xaby,a}); after every batch everything the rule published is compared with a reference interpreter (condition active points, rule active point, action set-value with the rule as origin, action/inactive-action active points, nothing when nothing changes)", nb)},
 			c13PointsBody(t, nb, false))
 		nb2 := 1 // (two batches of up to two points would be 17 M sequences per rule configuration)
 		r.Explore(mc.Config{Name: fmt.Sprintf("point-conditions-two-point-batches-b%d", nb2), Serial: true, SplitDepth: 2,
@@ -634,7 +655,7 @@ func TestC13(t *testing.T) {
 			Rule: "the 36 single point conditions that filter on key \"0\" x all sequences of 2 single-point batches over points with keys \"0\", \"1\", \"2\" (2 nodes x 2 types x 3 keys x 8 values/texts): only points whose key is \"0\" may move the condition"},
 			c13PointsBody(t, 2, false, false, false, true))
 		r.Explore(mc.Config{Name: "point-conditions-config-updates-b2", Serial: true, SplitDepth: 2,
-			Rule: "each of the 72 single point conditions x all sequences of 2 steps over the 64-point alphabet plus {the condition's comparison value set to 4.5, to 5.5 while the rule runs}: after an update the rule evaluates a trigger point of its own and later points are compared with the new value"},
+			Rule: "each of the 106 single point conditions x all sequences of 2 steps over the 64-point alphabet plus {the condition's comparison value set to 4.5, to 5.5 while the rule runs}: after an update the rule evaluates a trigger point of its own and later points are compared with the new value"},
 			c13PointsBody(t, 2, false, false, true))
 		r.Explore(mc.Config{Name: "point-conditions-stored-flags-b1", Serial: true, SplitDepth: 2,
 			Rule: "same rule configurations plus the rule without conditions, started with every combination of stored `active` flags of the rule and of each condition (a rule client restarted after its configuration changed: the stored rule flag may disagree with the conditions), three more conditions whose comparison cannot be evaluated (operator unknown or not defined for the value kind: never active), with and without a misconfigured action in front of each action list (set-value without point type, unknown action kind: the well-formed actions behind it must still run) x one single-point batch: after the batch the rule is active exactly when all conditions are, and the action list ran iff the rule's state changed"},
